@@ -338,3 +338,43 @@ def anno_program(x, adf, tss, seeks, sig=1, base=0, first_off=0, rng=None, paylo
         ops.append({"op": "annos", "sig": sig, "t": t - first_off if sig != 0 else t, "stop": k})
     ops.append({"op": "rclose"})
     return {"x": x, "kind": "c11", "feat": ["adf-%d" % adf, "sig0" if sig == 0 else "fsr"], "ops": ops}
+
+
+def utc_program(rng, x, count, udf, rate, base=0, tbase=0, first_off=0, nq=40, equal_times=False):
+    """UTC entries with increasing ids (spacing <= 64) and increasing times (<= 4096 ticks/step),
+    then jls_rd_utc from several ids and id<->time conversions inside, at anchors, before and after."""
+    ops = [{"op": "wopen"}, {"op": "source", "id": 1, "name": ["lit", "s"]},
+           {"op": "signal", "id": 1, "src": 1, "dt": "u8", "rate": rate, "adf": 10, "udf": udf, "name": ["lit", "x"], "units": ["lit", "u"],
+            "base": base, "tbase": tbase},
+           {"op": "fsr", "sig": 1, "id": base + first_off, "n": 64}]
+    ids, ts = [], []
+    i, t = first_off + rng.choice([0, 0, 5, -40]), rng.choice([0, 1000, -300])
+    tps = {1073741824: 1, 268435456: 4, 16777216: 64, 1048576: 1024, 1000000000: 1}.get(rate, 1)
+    for k in range(count):
+        ids.append(i)
+        ts.append(t)
+        ops.append({"op": "utc", "sig": 1, "id": base + i, "t": tbase + t})
+        step = rng.choice([1, 2, 3, 10, 33, 64])
+        i += step
+        drift = rng.choice([0, 0, 1, -1, 2]) if tps > 2 else 0
+        dt = min(4096, max(1, step * tps + drift)) if tps * step <= 4096 else 4096
+        t += 0 if (equal_times and rng.random() < 0.2) else dt
+    ops += [{"op": "wclose"}, {"op": "ropen"}]
+    api = lambda v: v - first_off        # reader ids are relative to the first sample id
+    if ids:
+        for q in sorted(set([ids[0] - 7, ids[0], ids[-1], ids[-1] + 1, ids[-1] + 50] + [rng.choice(ids) for _ in range(4)] + [rng.choice(ids) + 1 for _ in range(2)])):
+            ops.append({"op": "utcs", "sig": 1, "id": api(q)})
+        ops.append({"op": "utcs", "sig": 1, "id": api(rng.choice(ids)), "stop": 1})
+        if not equal_times:
+            qs = [ids[0] - 30, ids[0] - 1, ids[0], ids[0] + 1, ids[-1] - 1, ids[-1], ids[-1] + 1, ids[-1] + 40]
+            qs += [rng.choice(ids) for _ in range(nq // 4)] + [rng.randint(ids[0] - 10, ids[-1] + 10) for _ in range(nq // 2)]
+            if count == 1:
+                qs = [ids[0] + d for d in (-300, -7, -1, 0, 1, 9, 250)]
+            for q in qs:
+                ops.append({"op": "i2t", "sig": 1, "id": api(q), "then_t2i": True})
+            for tq in [ts[0] - 100, ts[0], ts[-1], ts[-1] + 77] + [rng.choice(ts) for _ in range(nq // 8)] + [rng.randint(ts[0], ts[-1] + 1) for _ in range(nq // 4)]:
+                ops.append({"op": "t2i", "sig": 1, "t": tbase + tq})
+    else:
+        ops += [{"op": "utcs", "sig": 1, "id": 0}, {"op": "i2t", "sig": 1, "id": 5}, {"op": "t2i", "sig": 1, "t": tbase + 5}]
+    ops.append({"op": "rclose"})
+    return {"x": x, "kind": "c12", "feat": ["utc-%d" % count, "udf-%d" % udf, "rate-%d" % rate] + (["equal-times"] if equal_times else []), "ops": ops}
